@@ -674,8 +674,316 @@ def correspondence(rng, tier):
     return [tree_cases(rng, tier), factory_cases(rng, tier)]
 
 
+# ------------------------------------------------------------------ probes
+PROBE_PRELUDE = ("import numpy as np, odl, sys\nsys.path.insert(0, %r)\n"
+                 "from harness.c07 import unflatten, flatten, objective, step_of\nS = odl.solvers\n" % C.VERIF)
+
+
+def step_of(spec, space):
+    """('scal', s) | ('vec', flat) | ('pair', a, b)  ->  what f.proximal accepts."""
+    return impl_step(spec, space)
+
+
+def objective(f, spec, x, z):
+    """f(z) + ||z-x||^2/(2 sigma) in the norm of f.domain; per-point / per-component steps enter as a metric."""
+    fz = float(f(z))
+    if not math.isfinite(fz):
+        return fz
+
+    def q(spec, d):
+        if spec[0] == 'scal':
+            return float(d.norm()) ** 2 / (2.0 * spec[1])
+        if spec[0] == 'vec':
+            sv = unflatten(d.space, spec[1])
+            return float((d / sv).inner(d)) / 2.0
+        return q(spec[1], d[0]) + q(spec[2], d[1])
+    return fz + q(spec, z - x)
+
+
+def _probe_points(f, spec, x, p, rng, feasible_fn=None):
+    """Candidate competitors z."""
+    X = f.domain
+    n = space_size(X)
+    pf = np.array(flatten(p))
+    out = []
+    for scale in (1e-3, 1e-2, 0.1, 0.5, 2.0):
+        out.append(unflatten(X, list(pf + scale * np.array([rng.uniform(-1, 1) for _ in range(n)]))))
+    for i in range(min(n, 6)):
+        for h in (1e-3, -1e-3, 0.1, -0.1):
+            e = pf.copy()
+            e[i] += h
+            out.append(unflatten(X, list(e)))
+    # feasible points (for indicators / restricted domains): images of the proximal itself, and segments to them
+    try:
+        prox = f.proximal(step_of(spec, X))
+        for _ in range(4):
+            y = unflatten(X, list(pf + np.array([rng.uniform(-2, 2) for _ in range(n)])))
+            zf = prox(y)
+            for t in (1.0, 0.5, 0.1, 0.01):
+                out.append(p + t * (zf - p))
+    except Exception:
+        pass
+    out.append(x)
+    out.append(0 * x)
+    return out
+
+
+def check_optimal(f, spec, xflat, rng, minimise=True):
+    """Evaluate the property for one (f, step, x).  Returns (ok, detail, witness_flat_or_None)."""
+    X = f.domain
+    x = unflatten(X, xflat)
+    p = f.proximal(step_of(spec, X))(x)
+    fp = float(f(p))
+    if not math.isfinite(fp):
+        return False, 'f(p) = %r is not finite' % fp, None
+    Fp = objective(f, spec, x, p)
+    tol = 1e-9 * (1.0 + abs(Fp))
+    worst, wz = 0.0, None
+    cands = _probe_points(f, spec, x, p, rng)
+    n = space_size(X)
+    if minimise and n <= 4:
+        try:
+            from scipy.optimize import minimize
+            for start in (flatten(p), xflat):
+                r = minimize(lambda v: min(objective(f, spec, x, unflatten(X, list(v))), 1e30),
+                             np.array(start) + 1e-3, method='Nelder-Mead',
+                             options={'xatol': 1e-10, 'fatol': 1e-14, 'maxiter': 600})
+                cands.append(unflatten(X, list(r.x)))
+        except Exception:
+            pass
+    for z in cands:
+        Fz = objective(f, spec, x, z)
+        if Fp - Fz > worst:
+            worst, wz = Fp - Fz, z
+    if worst > tol:
+        return False, 'objective at p exceeds objective at z by %.3g' % worst, flatten(wz)
+    return True, None, None
+
+
+def optimal_replay(fcode, spec, xflat, zflat):
+    return (PROBE_PRELUDE +
+            "f = %s\nX = f.domain\nspec = %r\nx = unflatten(X, %r)\n"
+            "p = f.proximal(step_of(spec, X))(x)\n"
+            "observed = {'p': flatten(p), 'f(p)': float(f(p)), 'F(p)': objective(f, spec, x, p)}\n"
+            % (fcode, spec, xflat) +
+            ("z = unflatten(X, %r)\nexpected = {'F(z) (a competitor with a smaller value)': objective(f, spec, x, z)}\n"
+             "ok = np.isfinite(float(f(p))) and objective(f, spec, x, p) <= objective(f, spec, x, z) + 1e-9*(1+abs(objective(f, spec, x, p)))\n"
+             % (zflat,) if zflat is not None else
+             "expected = 'f(p) finite'\nok = bool(np.isfinite(float(f(p))))\n"))
+
+
+def _space_kind(code):
+    if 'ProductSpace' in code:
+        inner = 'weighted' if ('weighting' in code or 'uniform_discr' in code) else 'plain'
+        return 'pspace-' + inner
+    if 'uniform_discr' in code:
+        return 'discr'
+    if 'weighting=[' in code:
+        return 'rn-array'
+    if 'weighting=' in code:
+        return 'rn-const'
+    return 'rn'
+
+
+def _nonunit_weights(sp):
+    return any(abs(w - 1.0) > 1e-12 for w in sp.weights)
+
+
+def _nonconst_weights(sp):
+    w = sp.weights
+    return any(abs(v - w[0]) > 1e-12 for v in w)
+
+
+def finding_key(kind, sp):
+    """Map (functional kind, space) to the key of a recorded finding, or None."""
+    code = sp.code
+    power = True
+    try:
+        power = (not _is_pspace(sp.space)) or sp.space.is_power_space
+    except Exception:
+        pass
+    if kind == 'huber' and 'ProductSpace' in code:
+        return 'huber-product-space'
+    if kind == 'huber' and 'weighting=[' in code:
+        return 'huber-array-weighted-space'
+    if kind in ('simplex', 'linf', 'ball1') and not power:
+        return 'proj-simplex-nonpower-product-space'
+    if kind == 'linf' and _nonunit_weights(sp):
+        return 'linfty-weighted-space'
+    if kind == 'ball1' and _nonunit_weights(sp):
+        return 'indicator-l1-ball-weighted-space'
+    if kind == 'simplex' and _nonconst_weights(sp):
+        return 'indicator-simplex-nonuniform-weights'
+    if kind == 'sumconstr':
+        return 'indicator-sum-constraint-proximal'
+    if kind in ('nuclear-np.inf',):
+        return 'nuclear-norm-exp-inf-proximal'
+    if kind == 'nuclear-ball':
+        return 'nuclear-ball-proximal-outside'
+    return None
+
+
+def _extra_functionals(rng, tier):
+    """Classes outside the Coq model: (kind, code, Sp, positive_domain)."""
+    out = []
+    n = rng.choice([2, 3])
+    base = rng.choice(['odl.rn(%d)' % n, 'odl.rn(%d, weighting=2.0)' % n, 'odl.uniform_discr(0, 1, %d)' % n,
+                       'odl.rn(%d, weighting=%r)' % (n, [rng.choice([0.5, 1.0, 2.0]) for _ in range(n)])])
+    sp = Sp(base)
+    prior = [rng.choice([0.5, 1.0, 2.0, 3.0]) for _ in range(n)]
+    out.append(('kl', 'S.KullbackLeibler(%s)' % base, sp, True))
+    out.append(('kl-prior', '(lambda X: S.KullbackLeibler(X, unflatten(X, %r)))(%s)' % (prior, base), sp, True))
+    out.append(('klcc', 'S.KullbackLeibler(%s).convex_conj' % base, sp, False))
+    out.append(('klcc-prior', '(lambda X: S.KullbackLeibler(X, unflatten(X, %r)).convex_conj)(%s)' % (prior, base), sp, False))
+    out.append(('klce', 'S.KullbackLeiblerCrossEntropy(%s)' % base, sp, True))
+    out.append(('klce-prior', '(lambda X: S.KullbackLeiblerCrossEntropy(X, unflatten(X, %r)))(%s)' % (prior, base), sp, True))
+    out.append(('klcecc', 'S.KullbackLeiblerCrossEntropy(%s).convex_conj' % base, sp, False))
+    out.append(('sumconstr', 'S.IndicatorSumConstraint(%s)' % base, sp, False))
+    m = rng.choice([1, 2])
+    nb = 'odl.ProductSpace(odl.ProductSpace(odl.rn(%d), 2), %d)' % (m, rng.choice([2, 3]))
+    for e in ('1', '2', 'np.inf'):
+        out.append(('nuclear-%s' % e, 'S.NuclearNorm(%s, 1, %s)' % (nb, e), Sp(nb), False))
+    out.append(('nuclear-ball', 'S.IndicatorNuclearNormUnitBall(%s, np.inf, 2)' % nb, Sp(nb), False))
+    out.append(('huber', 'S.Huber(odl.ProductSpace(%s, 2), %r)' % (base, rng.choice([0.5, 1.0])),
+                Sp('odl.ProductSpace(%s, 2)' % base), False))
+    return out
+
+
 def probes(rng, tier):
-    return []
+    import odl
+    S = odl.solvers
+    env = {'odl': odl, 'np': np, 'S': S, 'unflatten': unflatten}
+    out = []
+    reps = 2 if tier == 'quick' else 8
+
+    def run_case(kind, fcode, sp, spec, xflat, key):
+        what = '%s: f.proximal(%s)(x) minimises f(z)+||z-x||^2/(2 sigma) and f(p) is finite' % (fcode, spec[0])
+        try:
+            f = eval(fcode, env)
+            ok, detail, wz = check_optimal(f, spec, xflat, rng)
+        except Exception as e:   # noqa
+            ok, detail, wz = False, 'raised %s: %s' % (type(e).__name__, str(e)[:120]), None
+        out.append(C.Probe(ok, key, what, optimal_replay(fcode, spec, xflat, wz), detail))
+        return ok
+
+    # 1. every leaf class x space kind x step kind
+    for kind in LEAF_KINDS + ['huber-any', 'linf-any', 'ball1-any', 'simplex-any']:
+        for _ in range(reps):
+            if kind.endswith('-any'):       # any space, incl. the ones excluded from the correspondence
+                k0 = kind[:-4]
+                sp, _tag = rand_space(rng, tier)
+                t = ('leaf', k0, {'gamma': rng.choice([0.5, 1.0, 0.0]), 'diam': rng.choice([1.0, 2.0])}, sp)
+            else:
+                k0 = kind
+                t = rand_leaf(rng, tier, kind)
+            sp = t[3]
+            spec = rand_step(rng, t)
+            if k0 in ('box', 'nonneg', 'const', 'zero', 'indzero', 'ball1', 'simplex') and spec[0] == 'vec':
+                spec = ('scal', pos(rng))        # step unused by these proximals: probe with a scalar metric
+            x = vec(rng, sp.n)
+            fk = finding_key(k0, sp)
+            key = fk or 'opt-%s-%s-%s' % (k0, _space_kind(sp.code), spec[0])
+            run_case(k0, tree_code(t), sp, spec, x, key)
+    # 2. derived functionals (random trees)
+    ntrees = 40 if tier == 'quick' else 300
+    made = 0
+    while made < ntrees:
+        t = rand_tree(rng, tier, rng.randint(1, 3))
+        try:
+            build(t)
+            coq_tree(t)
+        except Skip:
+            continue
+        made += 1
+        spec = rand_step(rng, t)
+        if spec[0] != 'scal' and any(k in ('box', 'nonneg', 'const', 'zero', 'indzero', 'ball1', 'simplex')
+                                     for k in leaf_kinds(t)):
+            spec = ('scal', pos(rng))
+        x = vec(rng, tree_dim(t))
+        fks = [finding_key(l[1], l[3]) for l in _leaves(t)]
+        fks = [k for k in fks if k]
+        top = t[0]
+        key = fks[0] if fks else 'opt-tree-%s-%s' % (top, spec[0])
+        run_case('tree', tree_code(t), None, spec, x, key)
+    # 3. classes outside the model
+    for _ in range(reps):
+        for kind, fcode, sp, positive in _extra_functionals(rng, tier):
+            x = [abs(v) + 0.25 for v in vec(rng, sp.n)] if positive else vec(rng, sp.n, lo=-6, hi=6, den=4)
+            if kind.startswith('klcc'):
+                x = [min(v, 0.75) for v in x]
+            spec = ('scal', pos(rng))
+            key = finding_key(kind.split('-')[0] if kind.startswith('huber') else kind, sp) or \
+                'opt-%s-%s' % (kind, _space_kind(sp.code))
+            run_case(kind, fcode, sp, spec, x, key)
+    # 4. factories with element-valued step and g (documented step kind)
+    for _ in range(reps):
+        n = rng.choice([2, 3])
+        g, sv, x = vec(rng, n), [pos(rng) for _ in range(n)], vec(rng, n)
+        code = ("(lambda X: S.proximal_convex_conj_l1(X, g=X.element(%r))(X.element(%r))(X.element(%r)))(odl.rn(%d))"
+                % (g, sv, x, n))
+        rp = PROBE_PRELUDE + "p = %s\nok = bool(np.all(np.isfinite(p)))\n" % code
+        try:
+            eval(code, env)
+            ok, detail = True, None
+        except Exception as e:   # noqa
+            ok, detail = False, 'raised %s' % type(e).__name__
+        out.append(C.Probe(ok, 'conj-l1-g-element-sigma',
+                           'proximal_convex_conj_l1(space, g=g)(sigma element)(x) returns a point', rp, detail))
+    # 5. consequences: firm non-expansiveness; indicator proximals land in the set and are idempotent
+    for _ in range(ntrees // 2):
+        t = rand_tree(rng, tier, rng.randint(0, 2))
+        try:
+            f = build(t)
+            coq_tree(t)
+        except Skip:
+            continue
+        if any(finding_key(l[1], l[3]) for l in _leaves(t)):
+            continue
+        sg = pos(rng)
+        n = tree_dim(t)
+        x1, x2 = vec(rng, n), vec(rng, n)
+        code = tree_code(t)
+        rp = (PROBE_PRELUDE + "f = %s\nX = f.domain\nx1 = unflatten(X, %r); x2 = unflatten(X, %r)\n"
+              "P = f.proximal(%r); p1 = P(x1); p2 = P(x2)\n"
+              "observed = float((p1-p2).norm()**2); expected = float((p1-p2).inner(x1-x2))\n"
+              "ok = observed <= expected + 1e-9*(1+abs(expected))\n" % (code, x1, x2, sg))
+        e2 = {}
+        try:
+            exec(rp, e2)
+            ok = bool(e2['ok'])
+        except Exception:
+            ok = False
+        out.append(C.Probe(ok, 'firm-nonexpansive-%s' % t[0], '%s: ||p1-p2||^2 <= <p1-p2, x1-x2>' % code, rp))
+    for kind in ('box', 'nonneg', 'indzero', 'ballinf', 'ball2', 'ball1', 'simplex', 'groupball'):
+        for _ in range(reps):
+            t = rand_leaf(rng, tier, kind)
+            sp = t[3]
+            if finding_key(kind, sp):
+                continue
+            x = vec(rng, sp.n)
+            sg = pos(rng)
+            code = tree_code(t)
+            rp = (PROBE_PRELUDE + "f = %s\nX = f.domain\nx = unflatten(X, %r)\nP = f.proximal(%r); p = P(x); pp = P(p)\n"
+                  "observed = {'f(p)': float(f(p)), 'dist(P(p), p)': float((pp - p).norm())}\n"
+                  "ok = bool(np.isfinite(float(f(p)))) and float((pp - p).norm()) <= 1e-9*(1+float(p.norm()))\n"
+                  % (code, x, sg))
+            e2 = {}
+            try:
+                exec(rp, e2)
+                ok = bool(e2['ok'])
+            except Exception:
+                ok = False
+            out.append(C.Probe(ok, 'indicator-idempotent-%s-%s' % (kind, _space_kind(sp.code)),
+                               '%s: proximal lands in the set and is idempotent' % code, rp))
+    return out
+
+
+def _leaves(t):
+    if t[0] == 'leaf':
+        return [t]
+    if t[0] == 'sep':
+        return _leaves(t[1]) + _leaves(t[2])
+    return _leaves(t[-1])
 
 
 LEVEL_TEXT = 'in progress'
